@@ -687,5 +687,108 @@ def rule_r8(ctx) -> RuleResult:
     return expand_once(ctx, "C13.R8")
 
 
+EXPANDERS = {"expand", "expand_recurse", "expander", "expand_all_templates", "expand_args", "expand_parserfn", "call_parser_function",
+             "expandTemplate", "callParserFunction", "preprocess"}
+
+
+def _expander_call(e) -> bool:
+    if not isinstance(e, ast.Call):
+        return False
+    f = e.func
+    name = f.id if isinstance(f, ast.Name) else (f.attr if isinstance(f, ast.Attribute) else "")
+    return name in EXPANDERS
+
+
+def memoised_expansions(fn) -> list:
+    """[(store statement, container text, call)] where the result of an expansion call is stored into `C[key]` and that store is
+    control-dependent on a miss in the same container (`r = C.get(key)` / `C[key]` / `key in C` tested above it): the
+    memo-table signature.  A map that is only filled (the argument map of a template call) or only read is not one."""
+    parents = {c: p_ for p_ in ast.walk(fn) for c in ast.iter_child_nodes(p_)}
+    # names holding an expansion result
+    holders: dict = {}
+    for n in walk_no_nested(fn):
+        if isinstance(n, ast.Assign):
+            calls = [c for c in ast.walk(n.value) if _expander_call(c)]
+            if calls:
+                for t in n.targets:
+                    for x in ast.walk(t):
+                        if isinstance(x, ast.Name):
+                            holders[x.id] = calls[0]
+    out = []
+    for n in walk_no_nested(fn):
+        if not isinstance(n, ast.Assign):
+            continue
+        subs = [t for t in n.targets if isinstance(t, ast.Subscript)]
+        if not subs:
+            continue
+        call = next((c for c in ast.walk(n.value) if _expander_call(c)), None)
+        if call is None and isinstance(n.value, ast.Name) and n.value.id in holders:
+            call = holders[n.value.id]
+        if call is None:
+            continue
+        cont = unparse(subs[0].value)
+        # names bound to a lookup in the same container
+        probes = set()
+        for a in walk_no_nested(fn):
+            if isinstance(a, ast.Assign) and len(a.targets) == 1 and isinstance(a.targets[0], ast.Name):
+                v = a.value
+                if (isinstance(v, ast.Call) and isinstance(v.func, ast.Attribute) and v.func.attr == "get" and unparse(v.func.value) == cont) \
+                        or (isinstance(v, ast.Subscript) and unparse(v.value) == cont):
+                    probes.add(a.targets[0].id)
+        def probing(t) -> bool:
+            for x in ast.walk(t):
+                if isinstance(x, ast.Name) and x.id in probes:
+                    return True
+                if isinstance(x, ast.Compare) and any(isinstance(o, (ast.In, ast.NotIn)) for o in x.ops) and any(unparse(c) == cont for c in x.comparators):
+                    return True
+                if isinstance(x, ast.Call) and isinstance(x.func, ast.Attribute) and x.func.attr == "get" and unparse(x.func.value) == cont:
+                    return True
+            return False
+        st = n
+        conds = X.path_conditions(parents, st)
+        # also the conditions under which the call itself ran (the store may follow the guarded block)
+        cst = call
+        while cst in parents and not isinstance(cst, ast.stmt):
+            cst = parents[cst]
+        conds += X.path_conditions(parents, cst)
+        if any(probing(t) for t, _ in conds):
+            out.append((n, cont, call))
+    return out
+
+
+def rule_r9(ctx) -> RuleResult:
+    """Hooks see every expanded call, and an expansion depends on more than its text (the calling frame's arguments, the page
+    state, what the hooks return).  So no expansion entry point may answer from a table of earlier results: neither a memo
+    decorator on a function that expands, nor a hand-written `r = cache.get(key); if r is None: r = cache[key] = expand(...)`.
+    (Seeds C13-8A: parser-function arguments memoised by their text -- the hooks run once for several identical calls; C08-8A:
+    frame:preprocess results memoised per page by (template title, text) -- the frame's arguments are not in the key.)"""
+    rr = RuleResult("C13.R9", "no expansion entry point answers from a table of earlier results", min_instances=20)
+    n_calls = 0
+    for dotted, m, f in ctx.index.all_functions():
+        if dotted.split(".")[0] not in ("core", "parserfns", "luaexec", "node_expand"):
+            continue
+        calls = [c for c in walk_no_nested(f) if _expander_call(c)]
+        if not calls:
+            continue
+        ctx.touched(dotted, m.relpath)
+        n_calls += len(calls)
+        for d in f.decorator_list:
+            dn = unparse(d.func if isinstance(d, ast.Call) else d).split(".")[-1]
+            if dn in ("lru_cache", "cache", "cached_property", "memoize", "memoized"):
+                rr.bad(Finding("C13.R9", m.relpath, dotted, "@" + unparse(d)[:40],
+                               "a function that expands wikitext is memoised: a repeated call returns the earlier result without running the hooks "
+                               "and whatever the frame or the page state is by then", f.lineno))
+        memos = memoised_expansions(f)
+        for st, cont, call in memos:
+            rr.bad(Finding("C13.R9", m.relpath, dotted, "{} = {}".format(unparse(st.targets[0])[:40], unparse(call)[:40]),
+                           "the result of `{}` is kept in `{}` and reused on a hit: the hooks (template_fn / post_template_fn) do not run for the "
+                           "repeated call, and whatever the expansion depends on besides the key (the calling frame's arguments, the page state) "
+                           "is ignored".format(unparse(call.func), cont), st.lineno))
+        if not memos:
+            rr.ok(dotted, "{} expansion call(s), none memoised".format(len(calls)))
+    rr.instances["expansion_calls"] = n_calls
+    return rr
+
+
 def run(ctx) -> list:
-    return [rule_r1(ctx), rule_r2(ctx), rule_r3(ctx), rule_r4(ctx), rule_r5(ctx), rule_r6(ctx), rule_r7(ctx), rule_r8(ctx)]
+    return [rule_r1(ctx), rule_r2(ctx), rule_r3(ctx), rule_r4(ctx), rule_r5(ctx), rule_r6(ctx), rule_r7(ctx), rule_r8(ctx), rule_r9(ctx)]
